@@ -97,15 +97,39 @@ def c13_r1(ctx):
     fs = prog.func("util.numeric.from_sortable")
 
     def int_branch(f):
-        for i, st in enumerate(f.node.body):
-            if isinstance(st, ast.If) and "int" in norm.canon(st.test):
-                ops = []
-                for s2 in st.body:
-                    if isinstance(s2, ast.If) and norm.canon(s2.test) == "signed":
-                        for s3 in s2.body:
+        """(ops applied to the running value on the int side under `signed`, the int-type test, returns of the float side).
+        The type test may be written either way round (`if int: ... else: float` / `if not int: return float(...)`)."""
+        from ..desugar import terminates
+        body = f.node.body
+        for i, st in enumerate(body):
+            if not isinstance(st, ast.If):
+                continue
+            test, neg = st.test, False
+            while isinstance(test, ast.UnaryOp) and isinstance(test.op, ast.Not):
+                test, neg = test.operand, not neg
+            t = norm.canon(test)
+            import re as _re
+            if "numtype" not in t or not _re.search(r"\bint\b", t):
+                continue
+            rest = body[i + 1:]
+            tside = st.body + ([] if terminates(st.body) else rest)
+            fside = st.orelse + (rest if terminates(st.body) or not st.orelse else [])
+            if not st.orelse and not terminates(st.body):
+                fside = rest
+            if neg:
+                tside, fside = fside, tside
+            ops = []
+            for s2 in tside:
+                for x in ast.walk(s2):
+                    if isinstance(x, ast.If) and norm.canon(x.test) == "signed":
+                        for s3 in x.body:
                             if isinstance(s3, ast.AugAssign):
                                 ops.append((type(s3.op).__name__, norm.canon(s3.value)))
-                return ops, norm.canon(st.test), [norm.canon(r.value) for r in ast.walk(ast.Module(body=st.orelse + f.node.body[i + 1:], type_ignores=[])) if isinstance(r, ast.Return)]
+            extra = [x for s2 in tside for x in ast.walk(s2) if isinstance(x, ast.AugAssign)]
+            if len(extra) != len(ops):
+                ops.append(("unguarded", ""))
+            floats = [norm.canon(r.value) for r in ast.walk(ast.Module(body=fside, type_ignores=[])) if isinstance(r, ast.Return) and r.value is not None]
+            return ops, t, floats
         return None, None, None
     oe, ce, fe = int_branch(ts)
     od, cd, fd = int_branch(fs)
